@@ -92,6 +92,10 @@ class RunTaskExecutable(Operation):
             }
             if slot is not None:
                 env_vars[SLOT_ENV_VARIABLE_NAME] = str(slot)
+            else:
+                # Do not leak a slot number inherited from our own environment
+                # (e.g., when `cond` is itself invoked from within a task).
+                env_vars.pop(SLOT_ENV_VARIABLE_NAME, None)
 
             if self._record_output:
                 if slot is None:
